@@ -16,7 +16,7 @@ func init() {
 	props["C01"] = &PropDef{
 		ID: "C01", Level: "exploration",
 		Gen:   genC01,
-		Count: map[string]int{"quick": 16000, "thorough": 900000},
+		Count: map[string]int{"quick": 150000, "thorough": 3000000},
 		Rule: "scenario = one SA (suite stratified over the 9 encr x integ combinations, install mode direct/kdf) + 1..40 send steps from " +
 			"the full encodable domain, each with its own random-source script (plain stream, short reads, adversarial IV/pad octets, " +
 			"repeated stream), delivered in seeded order (reorder, duplicate) to a long-lived object, a fresh twin object or the sender's " +
